@@ -146,6 +146,7 @@ def _for_post(a, res):
     cs.append("leak" not in refs)
     cs.append("leaked_entity" not in a.self.parent.entity_refs)
     cs.append("outer" in refs)
+    cs.append(refs.get("i") == 99)  # the outer variable the iterator shadowed is visible again, with ITS value
     return And(*cs)
 
 
@@ -156,7 +157,7 @@ for_stmt = Contract(
     ensures=[("body lowered once per value, in order, iterator bound to the value; iteration-local names do not survive", _for_post)],
     uses={"ForStmt.get_iteration_values": iter_values, "StatementLowerer.lower_statement": lower_stmt},
     dynamic_types={"self": {"parent": ty.TObj("ASTLowerer", only=("ASTLowerer",))},
-                   "self.parent": {"signal_refs": ty.TConcrete({"outer": 7}), "entity_refs": ty.TConcrete({})},
+                   "self.parent": {"signal_refs": ty.TConcrete({"outer": 7, "i": 99}), "entity_refs": ty.TConcrete({})},
                    "stmt": {"iterator_name": ty.TConcrete("i"), "body": ty.TConcrete([_Opaque("stmt-A"), _Opaque("stmt-B")])}},
     properties=("C16",), min_obligations=1, no_replay=True, note="bounded list lengths (3 values x 2 statements)",
 )
